@@ -594,6 +594,9 @@ func parseSexp(s string) (*sexp, string) {
 			j++
 		}
 		j++
+		if j > len(s) { // unterminated string (truncated solver output)
+			j = len(s)
+		}
 	} else {
 		for j < len(s) && !strings.ContainsRune(" \t\r\n()", rune(s[j])) {
 			j++
